@@ -12,8 +12,8 @@ class WeightedSampler:
         self.weights = weights
         self.size = size
         self.seed = seed
-        self.rank = rank or get_rank()
-        self.world_size = world_size or get_world_size()
+        self.rank = get_rank() if rank is None else rank
+        self.world_size = get_world_size() if world_size is None else world_size
         self.epoch = 0
 
     @property
